@@ -10,6 +10,7 @@ import z3
 
 from pyvc.contract import ContractSet
 from pyvc.vals import *       # noqa
+from pyvc import extract
 from . import common
 from .common import DelayMgr, delay_present, delay_entry, events_named
 
@@ -58,8 +59,8 @@ SITES_UNDER_CONTRACT = {
 }
 SITES_LISTED = {
     ("mpf/core/platform_controller.py", "SoftwareEosRepulseManager._repulse_on_eos_open"):
-        "uses the rule's DriverSettings, which come from _get_configured_driver_with_hold/_no_hold (both call the "
-        "verified Driver.get_and_verify_* functions); the data flow through set_*_rule is assumed, not proved",
+        "uses the rule's DriverSettings, which come from _get_configured_driver_with_hold/_no_hold (both under "
+        "contract: the settings are within the coil's limits); the hand-over through set_*_rule is C10's PC1/PC2",
     ("mpf/devices/digital_output.py", "DigitalOutput.pulse"):
         "digital_outputs are not coils: no max_pulse_ms/max_*_power in their config section (constant power 1.0)",
     ("mpf/devices/digital_output.py", "DigitalOutput.enable"): "digital output, see DigitalOutput.pulse",
@@ -279,6 +280,88 @@ def build():
                   ("platform present", "self.platform is not None")],
          raises=LIMERR, modifies=[])
 
+    # ---- hardware rules: the DriverSettings handed to a platform rule are built from the verified values only
+    PCF = "mpf/core/platform_controller.py"
+    C.namedtuples["DriverRuleSettings"] = extract.namedtuple_fields(PCF, "DriverRuleSettings")
+    C.namedtuples["PulseRuleSettings"] = extract.namedtuple_fields(PCF, "PulseRuleSettings")
+    C.namedtuples["HoldRuleSettings"] = extract.namedtuple_fields(PCF, "HoldRuleSettings")
+    C.cls("DriverSettings", fields=dict(hw_driver=Opaque("Any"), pulse_settings=Opaque("Any"),
+                                        hold_settings=Opaque("Any"), recycle=Opaque("Any")))
+
+    def driver_settings(I, a, k):
+        I.ctx.fresh_n += 1
+        o = Obj("DriverSettings", ObjS("DriverSettings", {}), "DriverSettings#%d" % I.ctx.fresh_n)
+        I.creating_new += 1
+        try:
+            for i, f in enumerate(("hw_driver", "pulse_settings", "hold_settings", "recycle")):
+                I.write_field(o, f, k.get(f, a[i] if i < len(a) else NONE))
+        finally:
+            I.creating_new -= 1
+        return VObj(o)
+    C.globals["DriverSettings"] = VFn("model", model=driver_settings)
+    C.cls("MpfController", fields={})
+    C.cls("PlatformController", file=PCF, bases=["MpfController"], fields={})
+    DRS = TupleS(ObjS("Driver"), Bool, ntname="DriverRuleSettings", fields=tuple(C.namedtuples["DriverRuleSettings"][0]))
+    PRS = Union(NoneT, TupleS(ANYNUM, ANYNUM, ntname="PulseRuleSettings",
+                              fields=tuple(C.namedtuples["PulseRuleSettings"][0])))
+    HRS = Union(NoneT, TupleS(ANYNUM, ntname="HoldRuleSettings", fields=tuple(C.namedtuples["HoldRuleSettings"][0])))
+    rule_cfg = "driver.driver.config"
+    RULE_PULSE = [
+        ("rule pulse.duration>=0", "result.pulse_settings.duration >= 0"),
+        ("rule pulse.duration<=max_pulse_ms", "implies(%s['max_pulse_ms'], result.pulse_settings.duration <= "
+                                              "%s['max_pulse_ms'])" % (rule_cfg, rule_cfg)),
+        ("rule pulse.power>=0", "result.pulse_settings.power >= 0"),
+        ("rule pulse.power<=max_pulse_power", "result.pulse_settings.power <= %s" %
+         LIM_PULSE_POWER.replace("cfg", rule_cfg)),
+        ("an explicitly requested duration / power is what the rule gets (after verification)",
+         "implies(pulse_setting is not None and pulse_setting.duration is not None, result.pulse_settings.duration == "
+         "pulse_setting.duration) and implies(pulse_setting is not None and pulse_setting.power is not None, "
+         "result.pulse_settings.power == pulse_setting.power)"),
+    ]
+    ACFG = ("the coil's configuration is valid (A-CONFIG, the Driver class invariant)", "invariant_of(driver.driver)")
+    C.fn("PlatformController._get_configured_driver_no_hold", params=dict(driver=DRS, pulse_setting=PRS),
+         requires=[ACFG], ensures=RULE_PULSE + [("no hold in a no-hold rule", "result.hold_settings is None")],
+         raises=LIMERR, modifies=[], result=ObjS("DriverSettings"), no_inv=True)
+    C.fn("PlatformController._get_configured_driver_with_hold",
+         params=dict(driver=DRS, pulse_setting=PRS, hold_settings=HRS),
+         requires=[ACFG], ensures=RULE_PULSE + [
+             ("rule hold.power>0 (a rule with hold must hold)", "result.hold_settings.power > 0"),
+             ("rule hold.power<=max_hold_power", "result.hold_settings.power <= %s" %
+              LIM_HOLD_POWER.replace("cfg", rule_cfg))],
+         raises=LIMERR, modifies=[], result=ObjS("DriverSettings"), no_inv=True)
+
+    # ---- a light on a driver: the brightness reaches Driver.enable unchanged, so the driver's check applies
+    C.cls("LightPlatformSoftwareFade", fields={})
+    C.cls("CoilForLight", fields=dict(config=CONFIG))
+    C.ext("CoilForLight.enable", model=lambda I, env, a, k: (common.emit(I, "light.enable", hold_power=k.get("hold_power"),
+                                                                         kwargs=k, args=a), NONE)[1],
+          trusted_reason="Driver.enable (verified above): refuses a hold power above the limit")
+    C.ext("CoilForLight.disable", model=lambda I, env, a, k: (common.emit(I, "light.disable"), NONE)[1],
+          trusted_reason="Driver.disable (verified above)")
+    C.cls("DriverLight", file="mpf/platforms/driver_light_platform.py", bases=["LightPlatformSoftwareFade"],
+          fields=dict(driver=ObjS("CoilForLight")), check_bases=False)
+
+    def light_passes_on(I, brightness):
+        en = events_named(I, "light.enable")
+        dis = events_named(I, "light.disable")
+        b = I.force(brightness)
+        kk, t = I.num(b)
+        pos = t > 0
+        if len(en) == 1 and not dis:
+            e = en[0]
+            ok = set(e.args["kwargs"]) == {"hold_power"} and not e.args["args"]
+            return VBool(z3.And(pos, z3.BoolVal(ok), I.eq(e.args["hold_power"], b)))
+        if len(dis) == 1 and not en:
+            return VBool(z3.Not(pos))
+        return VBool(False)
+    C.helpers["light_passes_on"] = light_passes_on
+    C.trace_helpers = set(getattr(C, "trace_helpers", ())) | {"light_passes_on"}
+    C.fn("DriverLight.set_brightness", params=dict(brightness=Num),
+         ensures=[("a light on a driver switches the coil off for brightness <= 0 and otherwise asks the driver for "
+                   "EXACTLY that hold power - never a silently clamped one - so that Driver.enable refuses a value "
+                   "above max_hold_power", "light_passes_on(brightness)")],
+         modifies=[], raises={}, no_inv=True)
+
     C.fn("Driver._notify_psu_and_get_wait_ms", params=dict(pulse_ms=Num, max_wait_ms=Opt(Num)),
          result=Num, ensures=["result >= 0"], modifies=[], raises={})
 
@@ -309,7 +392,7 @@ def build():
         def h(I):
             return VBool(len(events_named(I, name)) > 0)
         return h
-    C.trace_helpers = {"issued_hw_enable", "issued_hw_disable"}
+    C.trace_helpers = set(getattr(C, "trace_helpers", ())) | {"issued_hw_enable", "issued_hw_disable"}
     C.helpers["issued_hw_enable"] = trace_has("hw.enable")
     C.helpers["issued_hw_disable"] = trace_has("hw.disable")
 
